@@ -49,10 +49,18 @@ def mutate(rng, s, k, alpha, indels=True):
 ROUNDING_PAIRS = [(m, k) for m in range(2, 131) for k in range(1, 7) if k < m and int((k / m) * m) != k]
 
 
-def gen_config(rng, long_adapters=False, allow_force_anywhere=True, very_long=0.0, rounding=0.03):
+def gen_config(rng, long_adapters=False, allow_force_anywhere=True, very_long=0.0, rounding=0.03, odd_chars=0.0):
     t = rng.choice(R.TYPES)
     wild = rng.random() < 0.3
     vl = rng.random() < very_long
+    if rng.random() < odd_chars:
+        # -N: any character may stand in the adapter (no validation); with read wildcards on it equals a read N
+        m = rng.randint(4, 14)
+        seq = list(rnd_seq(rng, m, "ACGT"))
+        for p in rng.sample(range(m), rng.choice([1, 1, 2])):
+            seq[p] = rng.choice("X.-XE")
+        return dict(type=t, seq="".join(seq), max_errors=rng.choice([0, 0.1, 0.2, 0.3]), min_overlap=rng.randint(1, m), aw=False, rw=rng.random() < 0.7,
+                    indels=rng.random() < 0.6, fa=bool(allow_force_anywhere and t in ("back", "front", "rightmost") and rng.random() < 0.12))
     if rng.random() < rounding:
         m, k = rng.choice(ROUNDING_PAIRS + [(90, 0.7)])
         return dict(type=t, seq=rnd_seq(rng, m, "ACGT"), max_errors=k, min_overlap=rng.choice([1, 3, m // 2, m]), aw=rng.random() < 0.8,
@@ -131,7 +139,10 @@ def build(cfg):
 def plant_core(rng, cfg, aseq_norm):
     core = aseq_norm
     if any(c not in "ACGT" for c in core):
-        core = "".join((rng.choice(R.IUPAC.get(c, "A")) if R.IUPAC.get(c) else "A") for c in core)
+        # characters that are no IUPAC code (X, '.', '-': possible when adapter wildcards are off): the read carries the
+        # character itself, an N (what such a character equals when read wildcards are on) or a base
+        odd = lambda c: rng.choice([c, "N", "N", "A"])
+        core = "".join((rng.choice(R.IUPAC.get(c, "A")) if R.IUPAC.get(c) else (odd(c) if c not in "ACGT" else c)) for c in core)
     return core
 
 
